@@ -187,9 +187,15 @@ func (s *Store) toMap(obj runtime.Object) (map[string]any, schema.GroupVersionKi
 			return nil, gvk, err
 		}
 	}
-	m = normalize(m)
+	// apiVersion/kind must be present BEFORE normalize: typed objects carry an empty
+	// TypeMeta, and normalize falls back to plain encoding/json (float64 numbers)
+	// for objects without kind, which made a later no-op write look like a change.
+	if m == nil {
+		m = map[string]any{}
+	}
 	m["apiVersion"] = gvk.GroupVersion().String()
 	m["kind"] = gvk.Kind
+	m = normalize(m)
 	if md, ok := m["metadata"].(map[string]any); ok {
 		if ct, ok := md["creationTimestamp"]; ok && ct == nil {
 			delete(md, "creationTimestamp")
@@ -1398,6 +1404,7 @@ func (s *Store) deleteLocked(k objKey, gvk schema.GroupVersionKind, do *client.D
 		return nil
 	}
 	fins, _ := md["finalizers"].([]any)
+	addedFG := false
 	if do.PropagationPolicy != nil && *do.PropagationPolicy == metav1.DeletePropagationForeground {
 		has := false
 		for _, f := range fins {
@@ -1408,11 +1415,17 @@ func (s *Store) deleteLocked(k objKey, gvk schema.GroupVersionKind, do *client.D
 		if !has {
 			fins = append(fins, "foregroundDeletion")
 			md["finalizers"] = fins
+			addedFG = true
 		}
 	}
 	if len(fins) > 0 {
-		if _, already := md["deletionTimestamp"]; !already {
-			md["deletionTimestamp"] = s.now()
+		// A delete that changes the stored object (sets the deletionTimestamp or adds
+		// the foregroundDeletion finalizer to an already terminating object) is a write:
+		// it gets a new resourceVersion, as in the real API server.
+		if _, already := md["deletionTimestamp"]; !already || addedFG {
+			if !already {
+				md["deletionTimestamp"] = s.now()
+			}
 			md["resourceVersion"] = s.nextRV()
 			c.Changed = true
 			s.put(k, e)
